@@ -75,6 +75,10 @@ def run(ctx, rep) -> None:
 
     rep.attempt("hyperparameters_from_group", hyperparameters_from_group, ctx, rep, "C13.5")
     rep.attempt("per_group_fresh", per_group_fresh, ctx, rep, "C13.5", ["distributed_shampoo.distributed_shampoo:DistributedShampoo._instantiate_shampoo_preconditioner_list"])
+    from .common import tensor_arguments_are_inputs
+
+    rep.rule("C13.6", "the matrix routines never write into the tensors they are handed (the stored factor / eigenbasis passed as estimate survives a failure mid-routine unchanged)")
+    rep.attempt("tensor_arguments_are_inputs", tensor_arguments_are_inputs, ctx, rep, "C13.6")
     kinds = pts.state_kinds()
     judged: list = []  # (caller, call of the tolerance routine, tracker variable, enumerate index variable)
     for cq, (routine, kind) in LISTS.items():
